@@ -37,6 +37,7 @@ type fnInfo struct {
 	ext  externalFn
 	stub *ssa.Function
 	noop bool
+	summ bool
 }
 
 // interpreter: one per worker; re-used across paths.
@@ -71,6 +72,10 @@ type interpreter struct {
 	nameCount          map[string]int
 	errorStringPtr     types.Type
 	clock              int64
+	summaries          map[*ssa.Function]*summary
+	merges             int
+	summBuilding       *ssa.Function
+	curFr              *frame
 }
 
 type deferred struct {
@@ -93,6 +98,7 @@ type frame struct {
 	panic            interface{}
 	phitemps         []value // temporaries for parallel phi assignment
 	cur              ssa.Instruction
+	phisDone         bool
 }
 
 func (fr *frame) get(key ssa.Value) value {
@@ -369,6 +375,9 @@ func visitInstr(fr *frame, instr ssa.Instruction) continuation {
 				succ = 0
 			}
 		case sym:
+			if fr.tryMerge(instr, c.t) {
+				return kJump
+			}
 			if i.decide(c.t) {
 				succ = 0
 			}
@@ -726,12 +735,15 @@ func (i *interpreter) info(fn *ssa.Function) *fnInfo {
 				key = o.String()
 			}
 		}
-		if st, ok := i.sh.Stubs[key]; ok {
+		if st, ok := i.sh.Stubs[key]; ok && (i.mode == Symbolic || i.sh.StubAlways[key]) {
 			fi.stub = st
 		} else if ext := externals[key]; ext != nil {
 			fi.ext = ext
 		} else if isNoopPkg(fn) {
 			fi.noop = true
+		}
+		if i.sh.Summarize[key] {
+			fi.summ = true
 		}
 	}
 	i.fninfo[fn] = fi
@@ -780,6 +792,11 @@ func callSSA(i *interpreter, caller *frame, callpos token.Pos, fn *ssa.Function,
 	}
 	if fi.noop {
 		return zero(fn.Signature.Results())
+	}
+	if fi.summ && i.path != nil && i.summBuilding != fn {
+		if r, ok := i.callSummary(fn, args); ok {
+			return r
+		}
 	}
 	if fn.Blocks == nil {
 		if fn.Pkg != nil {
@@ -860,6 +877,7 @@ func runFrame(fr *frame) {
 				panic(budgetExceeded{"instruction budget at " + fr.pos()})
 			}
 			fr.cur = instr
+			i.curFr = fr
 			if i.tracing {
 				if v, ok := instr.(ssa.Value); ok {
 					fmt.Fprintln(os.Stderr, "\t", v.Name(), "=", instr)
@@ -885,6 +903,10 @@ func executePhis(fr *frame) []ssa.Instruction {
 		}
 	}
 	nonPhis := fr.block.Instrs[firstNonPhi:]
+	if fr.phisDone {
+		fr.phisDone = false
+		return nonPhis
+	}
 	if firstNonPhi > 0 {
 		phis := fr.block.Instrs[:firstNonPhi]
 		predIndex := slices.Index(fr.block.Preds, fr.prevBlock)
